@@ -705,41 +705,51 @@ func (f *SQLFormatter) formatAlterStatement(stmt *ast.AlterStatement) error {
 
 // formatAlterTableOperation formats a single ALTER TABLE operation
 func (f *SQLFormatter) formatAlterTableOperation(op *ast.AlterTableOperation) {
+	cascade := func() {
+		if op.CascadeDrops {
+			f.builder.WriteString(" ")
+			f.writeKeyword("CASCADE")
+		}
+	}
 	switch op.Type {
 	case ast.AddColumn:
-		f.writeKeyword("ADD")
-		if op.ColumnKeyword {
-			f.builder.WriteString(" ")
-			f.writeKeyword("COLUMN")
-		}
+		// the parser accepts ADD only with COLUMN or CONSTRAINT
+		f.writeKeyword("ADD COLUMN")
 		if op.ColumnDef != nil {
-			f.builder.WriteString(" " + op.ColumnDef.Name)
-			if op.ColumnDef.Type != "" {
-				f.builder.WriteString(" " + op.ColumnDef.Type)
-			}
+			f.builder.WriteString(" ")
+			f.formatColumnDef(op.ColumnDef)
 		}
 	case ast.DropColumn:
-		f.writeKeyword("DROP")
-		if op.ColumnKeyword {
-			f.builder.WriteString(" ")
-			f.writeKeyword("COLUMN")
-		}
-		if op.ColumnDef != nil {
+		f.writeKeyword("DROP COLUMN")
+		if op.ColumnName != nil {
+			f.builder.WriteString(" " + op.ColumnName.Name)
+		} else if op.ColumnDef != nil {
 			f.builder.WriteString(" " + op.ColumnDef.Name)
 		}
+		cascade()
 	case ast.AddConstraint:
-		f.writeKeyword("ADD CONSTRAINT")
-		if op.Constraint != nil && op.Constraint.Name != "" {
-			f.builder.WriteString(" " + op.Constraint.Name)
+		f.writeKeyword("ADD")
+		if op.Constraint != nil {
+			f.builder.WriteString(" ")
+			if op.Constraint.Name == "" {
+				f.writeKeyword("CONSTRAINT")
+				f.builder.WriteString(" ")
+			}
+			if err := f.formatTableConstraint(op.Constraint); err != nil {
+				f.builder.WriteString(op.Constraint.Type)
+			}
 		}
 	case ast.DropConstraint:
 		f.writeKeyword("DROP CONSTRAINT")
 		if op.ConstraintName != nil {
 			f.builder.WriteString(" " + op.ConstraintName.String())
 		}
+		cascade()
 	case ast.RenameColumn:
 		f.writeKeyword("RENAME COLUMN")
-		if op.OldColumnName != nil {
+		if op.ColumnName != nil {
+			f.builder.WriteString(" " + op.ColumnName.Name)
+		} else if op.OldColumnName != nil {
 			f.builder.WriteString(" " + op.OldColumnName.String())
 		}
 		f.builder.WriteString(" ")
@@ -747,6 +757,9 @@ func (f *SQLFormatter) formatAlterTableOperation(op *ast.AlterTableOperation) {
 		if op.NewColumnName != nil {
 			f.builder.WriteString(" " + op.NewColumnName.String())
 		}
+	case ast.RenameTable:
+		f.writeKeyword("RENAME TO")
+		f.builder.WriteString(" " + op.NewTableName.Name)
 	default:
 		// Fallback for unsupported operations
 		f.builder.WriteString("...")
